@@ -113,6 +113,11 @@ func (c *c03) extractInto(base context.Context, tp string, hasTS bool, ts string
 	}
 	res.accepted = true
 	res.sc = trace.SpanContextFromContext(out)
+	// the result is the caller's context with a span context added: values (and with them deadlines,
+	// cancellation) of the context passed in are still there
+	if v := base.Value(ctxKey{}); v != nil && out.Value(ctxKey{}) != v {
+		c.r.FailHere("extract-loses-the-callers-context", map[string]any{"traceparent": show(tp)}, "Extract returned a context in which the caller's value %v is %v", v, out.Value(ctxKey{}))
+	}
 	return res
 }
 
@@ -1377,6 +1382,7 @@ func TestVerifC03(t *testing.T) {
 			}
 		}
 	}
+	jobs = append(jobs, "composite")
 	enum.Jobs(jobs, func(job string) {
 		r := enum.Start("C03", "tracecontext")
 		defer r.Finish()
@@ -1397,6 +1403,8 @@ func TestVerifC03(t *testing.T) {
 			c.tracestateMembers(job)
 		case job == "carriers":
 			c.carriers(job)
+		case job == "composite":
+			c.composite(job)
 		case scan(job, "ts-runes-%d", &a):
 			c.tracestateRunes(a, runeParts, job)
 		case scan(job, "edit-%d", &a):
@@ -1407,6 +1415,83 @@ func TestVerifC03(t *testing.T) {
 			panic("unknown job " + job)
 		}
 	})
+}
+
+// composite: (1) span contexts that are not valid are not injected -- the carrier, empty or already
+// holding headers, stays as it was; (2) the trace-context propagator inside a composite propagator
+// next to the baggage propagator, in both orders, with and without a baggage header in the carrier:
+// the span context comes out as it went in, and Fields() names the headers Inject writes.
+func (c *c03) composite(job string) {
+	r := c.r
+	r.Section(job)
+	tid, _ := trace.TraceIDFromHex(seedTID)
+	sid, _ := trace.SpanIDFromHex(seedSID)
+	ts, _ := trace.ParseTraceState("k1=v1,k2=v2")
+	invalid := []trace.SpanContext{
+		trace.NewSpanContext(trace.SpanContextConfig{SpanID: sid, TraceFlags: trace.FlagsSampled}),
+		trace.NewSpanContext(trace.SpanContextConfig{TraceID: tid, TraceFlags: trace.FlagsSampled}),
+		trace.NewSpanContext(trace.SpanContextConfig{TraceState: ts}),
+		{},
+	}
+	for i, sc := range invalid {
+		for _, pre := range []bool{false, true} {
+			if !r.Want() {
+				continue
+			}
+			r.Eval()
+			car := propagation.MapCarrier{}
+			if pre {
+				car["traceparent"], car["tracestate"], car["other"] = "00-"+seedTID+"-"+seedSID+"-01", "a=b", "x"
+			}
+			before := fmt.Sprint(car)
+			func() {
+				defer func() {
+					if p := recover(); p != nil {
+						r.FailHere("panic|Inject of an invalid span context", map[string]any{"invalid_context": i}, "panic: %v", p)
+					}
+				}()
+				c.prop.Inject(trace.ContextWithSpanContext(context.Background(), sc), car)
+			}()
+			if after := fmt.Sprint(car); after != before {
+				r.FailHere("inject-of-an-invalid-span-context-writes-headers", map[string]any{"invalid_context": i, "carrier_before": before}, "injecting an invalid span context (zero trace or span id) changed the carrier to %s", after)
+			}
+			r.Outcome(fmt.Sprint("invalid", i, pre))
+		}
+	}
+	valid := trace.NewSpanContext(trace.SpanContextConfig{TraceID: tid, SpanID: sid, TraceFlags: trace.FlagsSampled, TraceState: ts})
+	for order := 0; order < 2; order++ {
+		for _, withBag := range []bool{false, true} {
+			if !r.Want() {
+				continue
+			}
+			r.Eval()
+			var p propagation.TextMapPropagator = propagation.NewCompositeTextMapPropagator(propagation.TraceContext{}, propagation.Baggage{})
+			if order == 1 {
+				p = propagation.NewCompositeTextMapPropagator(propagation.Baggage{}, propagation.TraceContext{})
+			}
+			cas := map[string]any{"order": []string{"TraceContext,Baggage", "Baggage,TraceContext"}[order], "baggage_header_present": withBag}
+			car := propagation.MapCarrier{}
+			if withBag {
+				car["baggage"] = "user=alice"
+			}
+			p.Inject(trace.ContextWithSpanContext(context.Background(), valid), car)
+			if withBag {
+				car["baggage"] = "user=alice" // what an upstream hop sent along
+			}
+			got := trace.SpanContextFromContext(p.Extract(context.Background(), car))
+			if got.TraceID() != valid.TraceID() || got.SpanID() != valid.SpanID() || got.IsSampled() != valid.IsSampled() || got.TraceState().String() != valid.TraceState().String() || !got.IsRemote() {
+				r.FailHere("roundtrip|through a composite propagator", cas, "extracted %s/%s sampled=%v tracestate=%q remote=%v from carrier %v", got.TraceID(), got.SpanID(), got.IsSampled(), got.TraceState().String(), got.IsRemote(), car)
+			}
+			fields := map[string]bool{}
+			for _, f := range p.Fields() {
+				fields[f] = true
+			}
+			if !fields["traceparent"] || !fields["tracestate"] {
+				r.FailHere("fields|composite propagator", cas, "Fields() = %v lacks traceparent / tracestate", p.Fields())
+			}
+			r.Outcome(fmt.Sprint("composite", order, withBag))
+		}
+	}
 }
 
 func scan(s, format string, a ...any) bool {
